@@ -92,6 +92,9 @@ type SymHeader struct {
 
 // SymOptions modify how BuildSymChunk pads (zero value = canonical).
 type SymOptions struct {
+	// FullBlockWhenAligned pads with a whole cipher block when no padding is
+	// needed (the literal reading of the PaddingSize formula of §6.7.2.5).
+	FullBlockWhenAligned bool
 	// ExtraPadBlocks adds this many whole cipher blocks of padding on top of the
 	// minimum (the footer stays self-consistent; PaddingSize must stay <= 255).
 	ExtraPadBlocks int
@@ -154,6 +157,9 @@ func BuildSymChunk(p *Policy, mode Mode, keys *Keys, h SymHeader, body []byte, o
 		// whole number of cipher blocks
 		toEncrypt := SeqHeaderLen + len(body) + 1 + sigLen
 		pad := (p.BlockLen - toEncrypt%p.BlockLen) % p.BlockLen
+		if pad == 0 && o.FullBlockWhenAligned {
+			pad = p.BlockLen
+		}
 		pad += o.ExtraPadBlocks * p.BlockLen
 		if pad > 255 {
 			return nil, bad("build", "padding %d does not fit the PaddingSize byte", pad)
